@@ -357,12 +357,10 @@ fn process_dir(
 fn do_find(args: &[&str], deps: &dyn Dependencies) -> Result<i32, Box<dyn Error>> {
     let paths_and_matcher = parse_args(args)?;
     if paths_and_matcher.config.help_requested {
-        print_help();
-        return Ok(0);
+        return Ok(informational(print_help));
     }
     if paths_and_matcher.config.version_requested {
-        print_version();
-        return Ok(0);
+        return Ok(informational(print_version));
     }
 
     let mut ret = 0;
@@ -386,8 +384,25 @@ fn do_find(args: &[&str], deps: &dyn Dependencies) -> Result<i32, Box<dyn Error>
     Ok(ret)
 }
 
-fn print_help() {
-    println!(
+/// Writes the text -help or -version asks for: like any other output that
+/// cannot be written it is diagnosed (a closed pipe is not) and the exit
+/// status is 1.
+fn informational(print: fn(&mut dyn Write) -> std::io::Result<()>) -> i32 {
+    let mut out = std::io::stdout();
+    match print(&mut out).and_then(|()| out.flush()) {
+        Ok(()) => 0,
+        Err(e) => {
+            if e.kind() != std::io::ErrorKind::BrokenPipe {
+                let _ = writeln!(&mut stderr(), "Error writing to standard output: {e}");
+            }
+            1
+        }
+    }
+}
+
+fn print_help(out: &mut dyn Write) -> std::io::Result<()> {
+    writeln!(
+        out,
         r"Usage: find [path...] [expression]
 
 If no path is supplied then the current working directory is used by default.
@@ -430,11 +445,11 @@ Early alpha implementation. Currently the only expressions supported are
     a non-standard extension that sorts directory contents by name before
     processing them. Less efficient, but allows for deterministic output.
 "
-    );
+    )
 }
 
-fn print_version() {
-    println!("find (Rust) {}", env!("CARGO_PKG_VERSION"));
+fn print_version(out: &mut dyn Write) -> std::io::Result<()> {
+    writeln!(out, "find (Rust) {}", env!("CARGO_PKG_VERSION"))
 }
 
 /// Does all the work for find.
